@@ -33,6 +33,10 @@ pub enum Profile {
     AtAllowance,
     /// saturating for `on` s, idle for `idle` s, twice, then saturating for `on` s
     OnOff { on: u64, idle: u64 },
+    /// saturating for `on` s, then ONE second offering exactly `m` requests, then idle for `idle` s
+    /// (>= 2p), then saturating for 2 s: whatever token count the partial second leaves behind,
+    /// the rule must be cold again
+    Trickle { on: u64, m: u64, idle: u64 },
 }
 
 const RES: &str = "c08-res";
@@ -72,6 +76,15 @@ fn schedule(cfg: &Cfg) -> (Vec<bool>, usize) {
             let n = v.len();
             (v, n)
         }
+        Profile::Trickle { on, idle, .. } => {
+            let mut v = vec![];
+            v.extend(std::iter::repeat(true).take(*on as usize));
+            // the partial second (not a saturating one) and the idle period
+            v.extend(std::iter::repeat(false).take(1 + *idle as usize));
+            v.extend(std::iter::repeat(true).take(2));
+            let n = v.len();
+            (v, n)
+        }
     }
 }
 
@@ -95,6 +108,20 @@ pub fn simulate(cfg: &Cfg) -> Run {
     // demand starts `phase_ms` into the first second
     for s in 0..secs {
         if !on[s] {
+            if let Profile::Trickle { on: n_on, m, .. } = &cfg.profile {
+                if s as u64 == *n_on {
+                    let t = T0_MS + s as u64 * 1000 + cfg.phase_ms;
+                    clock::set_ms(t);
+                    for _ in 0..*m {
+                        run.builds += 1;
+                        run.offered[s] += 1;
+                        if let Built::Ok(e) = build(RES, TrafficType::Outbound, 1) {
+                            run.half[((t - T0_MS) / 500) as usize] += 1;
+                            e.exit();
+                        }
+                    }
+                }
+            }
             continue;
         }
         let sec_start = T0_MS + s as u64 * 1000;
@@ -267,6 +294,14 @@ pub fn configs(thorough: bool) -> Vec<Cfg> {
                         profiles.push(Profile::OnOff { on, idle });
                     }
                 }
+                // the partial second: every request count up to q (quick: one rule shape per q)
+                if (thorough && p <= 5) || (q == 100 && p <= 2 && c != 6) {
+                    for on in 1..=(2 * pp + 2) {
+                        for m in 1..=q as u64 {
+                            v.push(Cfg { q, c, p, grid_ms: 20, phase_ms: 0, profile: Profile::Trickle { on, m, idle: 2 * pp } });
+                        }
+                    }
+                }
                 for profile in profiles {
                     let variants: Vec<(u64, u64)> = if thorough { vec![(1, 0), (5, 250), (20, 999), (5, 0)] } else { vec![[(5, 0), (1, 250), (20, 0), (5, 999)][(k % 4) as usize]] };
                     k += 1;
@@ -286,6 +321,9 @@ pub fn configs(thorough: bool) -> Vec<Cfg> {
 pub fn run(o: &Opts, stats: &mut Stats) -> Option<usize> {
     if let Some(path) = &o.replay {
         let v: serde_json::Value = serde_json::from_str(&std::fs::read_to_string(path).unwrap()).unwrap();
+        if v["config"].get("history").is_some() {
+            return super::c08s::run(o, stats);
+        }
         let cfg: Cfg = serde_json::from_value(v["config"].clone()).unwrap();
         let (r1, r2) = (simulate(&cfg), simulate(&cfg));
         if r1.half != r2.half {
@@ -346,5 +384,8 @@ pub fn run(o: &Opts, stats: &mut Stats) -> Option<usize> {
             }
         }
     }
-    None
+    // second part (c08s.rs): every demand history; its configurations are numbered after the family's
+    let n_main = configs(o.thorough).len();
+    let o2 = Opts { start_cfg: o.start_cfg.saturating_sub(n_main), ..o.clone() };
+    super::c08s::run(&o2, stats).map(|r| r + n_main)
 }
